@@ -133,8 +133,8 @@ PROPS["C04"] = dict(
     rule=("case = (blob derived from a valid signature by 0..2 mutations, verifying certificate, role). Every (blob, certificate) verdict is one evaluation. "
           "Non-trivial = mutated blob that the library parses and in which a SignerInfo names the verifying certificate (the verdict then depends on the cryptographic and binding checks); distinct by SHA-256 of (blob, certificate)."),
     assumptions=["ref/cms.Accepts is the weakest predicate the C04 statement allows", "crypto/rsa, crypto/sha256, crypto/x509 certificate parsing"],
-    quick=dict(checks=2500, shards=4, timeout=900),
-    thorough=dict(checks=25000, shards=16, timeout=3000),
+    quick=dict(checks=9000, shards=4, timeout=900),
+    thorough=dict(checks=40000, shards=16, timeout=3000),
     fuzz=[("FuzzC04", 120)],
 )
 
